@@ -1,7 +1,7 @@
 //! C11 — a multi-document stream is the list of its documents, each on its own.
 //!
 //! Differential oracle on the real code. A stream is *composed* by the generator
-//! from document bodies (one of 26 kinds) and separators, so the cut into
+//! from document bodies (one of 32 kinds) and separators, so the cut into
 //! documents is known by construction; it is then confirmed against the raw
 //! `saphyr-parser` event stream (number of `DocumentStart` events, and per
 //! document the same event shape as the body parsed on its own). Only confirmed
@@ -192,7 +192,8 @@ macro_rules! target {
     };
 }
 
-static TARGETS: [Target; 4] = [target!("Doc", Doc), target!("Val", Val), target!("i64", i64), target!("RcDoc", RcDoc)];
+static TARGETS: [Target; 5] =
+    [target!("Doc", Doc), target!("Val", Val), target!("i64", i64), target!("RcDoc", RcDoc), target!("String", String)];
 
 fn target_by_name(n: &str) -> Option<&'static Target> {
     TARGETS.iter().find(|t| t.name == n)
@@ -221,9 +222,9 @@ struct Kind {
 }
 
 /// kinds of the main exhaustive enumeration
-const K: usize = 18;
+const K: usize = 19;
 /// all kinds (the rest fail at their very first token, before any node event)
-const K_ALL: usize = 26;
+const K_ALL: usize = 32;
 static KINDS: [Kind; K_ALL] = [
     Kind { name: "valid-block", nature: Nature::Plain, defines: &[], uses: &[] },
     Kind { name: "valid-flow", nature: Nature::Plain, defines: &[], uses: &[] },
@@ -243,6 +244,8 @@ static KINDS: [Kind; K_ALL] = [
     Kind { name: "type-error-in-replay", nature: Nature::Plain, defines: &["y"], uses: &[] },
     Kind { name: "root-int", nature: Nature::Plain, defines: &[], uses: &[] },
     Kind { name: "type-error-peeked-unit", nature: Nature::Plain, defines: &[], uses: &[] },
+    // quoted root scalar spelled like null: a string, not a null document
+    Kind { name: "quoted-null-dq", nature: Nature::Plain, defines: &[], uses: &[] },
     // documents that fail before producing any node
     Kind { name: "root-unterminated-dquote", nature: Nature::Syntax, defines: &[], uses: &[] },
     Kind { name: "root-reserved-indicator", nature: Nature::Syntax, defines: &[], uses: &[] },
@@ -252,8 +255,16 @@ static KINDS: [Kind; K_ALL] = [
     Kind { name: "flow-reserved-indicator", nature: Nature::Syntax, defines: &[], uses: &[] },
     Kind { name: "flow-nested-unterminated", nature: Nature::Syntax, defines: &[], uses: &[] },
     Kind { name: "flow-undefined-alias", nature: Nature::Alias, defines: &[], uses: &["nope"] },
+    // more quoted null-like / empty root scalars (strings)
+    Kind { name: "quoted-tilde-sq", nature: Nature::Plain, defines: &[], uses: &[] },
+    Kind { name: "quoted-empty-dq", nature: Nature::Plain, defines: &[], uses: &[] },
+    Kind { name: "quoted-empty-sq", nature: Nature::Plain, defines: &[], uses: &[] },
+    Kind { name: "quoted-Null-dq", nature: Nature::Plain, defines: &[], uses: &[] },
+    Kind { name: "quoted-NULL-sq", nature: Nature::Plain, defines: &[], uses: &[] },
 ];
-const FAIL_FIRST: std::ops::Range<usize> = K..K_ALL;
+const FAIL_FIRST: std::ops::Range<usize> = 19..27;
+/// quoted documents spelled like null / empty
+const QUOTED_NULLISH: [usize; 6] = [18, 27, 28, 29, 30, 31];
 
 /// Body text of a document of `kind` with the four numbers `v` (all >= 0).
 fn body(kind: usize, v: [u32; 4]) -> String {
@@ -277,14 +288,20 @@ fn body(kind: usize, v: [u32; 4]) -> String {
         15 => format!("a: {v0}\nl: &y [{v1}, {v2}]\nm: *y\nz: {v3}\n"),
         16 => format!("{v0}\n"),
         17 => format!("a: {v0}\nu: {v1}\nl: [{v2}]\nz: {v3}\n"),
-        18 => format!("\"abc{v0}\n"),
-        19 => format!("@foo{v0}\n"),
-        20 => format!("[{v0}, {v1}\n"),
-        21 => "*nope\n".to_string(),
-        22 => format!("[\"abc{v0}\n"),
-        23 => format!("{{a: @foo{v0}}}\n"),
-        24 => format!("{{a: [{v0}, {v1}\n"),
-        25 => "[*nope]\n".to_string(),
+        18 => "\"null\"\n".to_string(),
+        19 => format!("\"abc{v0}\n"),
+        20 => format!("@foo{v0}\n"),
+        21 => format!("[{v0}, {v1}\n"),
+        22 => "*nope\n".to_string(),
+        23 => format!("[\"abc{v0}\n"),
+        24 => format!("{{a: @foo{v0}}}\n"),
+        25 => format!("{{a: [{v0}, {v1}\n"),
+        26 => "[*nope]\n".to_string(),
+        27 => "'~'\n".to_string(),
+        28 => "\"\"\n".to_string(),
+        29 => "''\n".to_string(),
+        30 => "\"Null\"\n".to_string(),
+        31 => "'NULL'\n".to_string(),
         _ => unreachable!(),
     }
 }
@@ -599,6 +616,7 @@ fn kind_group(k: usize) -> &'static str {
             0..=2 | 16 => "valid",
             5 => "anchor-def",
             15 => "replay",
+            18 | 27..=31 => "quoted-null-like",
             _ => "type-error-kind",
         },
     }
@@ -956,6 +974,7 @@ fn exhaustive_stream(seq: &[usize], style: usize) -> Stream {
     let (seps, trailer): (Vec<u8>, u8) = match style {
         0 => (vec![0; n], 0),
         1 => (vec![1; n], 1),
+        3 => (vec![6; n], 0),
         _ => {
             let mut s = vec![2u8; n];
             s[0] = 4;
@@ -979,11 +998,11 @@ fn random_stream(rng: &mut Rng) -> Stream {
     for _ in 0..n {
         let r = rng.below(100);
         let k = if r < fatal_pct {
-            *rng.pick(&[9usize, 10, 18, 19, 20, 22, 23, 24])
+            *rng.pick(&[9usize, 10, 19, 20, 21, 23, 24, 25])
         } else if r < fatal_pct + alias_pct {
-            *rng.pick(&[6usize, 6, 12, 12, 21, 25])
+            *rng.pick(&[6usize, 6, 12, 12, 22, 26])
         } else {
-            *rng.pick(&[0usize, 0, 1, 2, 2, 3, 4, 5, 5, 7, 7, 8, 8, 11, 13, 13, 14, 15, 16, 17, 17])
+            *rng.pick(&[0usize, 0, 1, 2, 2, 3, 4, 5, 5, 7, 7, 8, 8, 11, 13, 13, 14, 15, 16, 17, 17, 18, 27, 28, 29, 30, 31])
         };
         let v = [rng.below(1000) as u32, rng.below(1000) as u32, rng.below(1000) as u32, rng.below(1000) as u32];
         let mut b = body(k, v);
@@ -1179,6 +1198,43 @@ fn main() {
         run.count_map(&lc.c);
     });
 
+    // ---- exhaustive: quoted null-like documents (strings) next to real null documents, in every position:
+    //      every sequence of length 1..=max_len over 11 kinds x 4 layouts
+    let alphabet: Vec<usize> = [0usize, 3, 4, 7, 16].iter().copied().chain(QUOTED_NULLISH.iter().copied()).collect();
+    let a_n = alphabet.len();
+    let mut q_off = vec![0usize];
+    for n in 1..=max_len {
+        q_off.push(q_off[n - 1] + a_n.pow(n as u32));
+    }
+    let q_total = q_off[max_len];
+    run.count("quoted_null_family_sequences", q_total as u64);
+    par_range(q_total * 4, |idx| {
+        let style = idx % 4;
+        let sidx = idx / 4;
+        let n = (1..=max_len).find(|n| sidx < q_off[*n]).unwrap();
+        let mut r = sidx - q_off[n - 1];
+        let mut seq = vec![0usize; n];
+        for d in (0..n).rev() {
+            seq[d] = alphabet[r % a_n];
+            r /= a_n;
+        }
+        if !seq.iter().any(|k| QUOTED_NULLISH.contains(k)) {
+            return; // already in the main enumeration
+        }
+        let st = exhaustive_stream(&seq, style);
+        let mut lc = Local::new();
+        lc.add("quoted_null_family_streams", 1);
+        let chunk = [1usize, 3, 7, 64, 4096][idx % 5];
+        for (ti, t) in TARGETS.iter().enumerate() {
+            let alone: Vec<Out> = seq.iter().enumerate().map(|(i, k)| alone_tab[ti][*k][i].clone()).collect();
+            check_stream(&run, &mut lc, &st, t, &alone, chunk, &Plan2 { which_singles: all_singles, trace_hooks: false });
+        }
+        if idx % 19_997 == 0 {
+            run.sample(|| json!({"text": st.text, "kinds": st.kinds.iter().map(|k| KINDS[*k].name).collect::<Vec<_>>()}));
+        }
+        run.count_map(&lc.c);
+    });
+
     // ---- random longer streams (2..=40 documents), fresh numbers in every document
     let n_random = tier.pick(20_000usize, 100_000usize);
     par_range(n_random, |i| {
@@ -1202,10 +1258,10 @@ fn main() {
     });
 
     let scope = format!(
-        "every sequence of length 1..={max_len} over {K} document kinds ({}) x 3 separator layouts (`---` | `...`+`---`+final `...` | implicit first document + comment lines + `--- # comment`) x 4 targets (derived struct Doc, untyped Val, i64, RcAnchor struct) x entry points from_multiple, from_slice_multiple, read, read_with_options and the six single-document entry points (all six for length <= 3, two rotating for longer); plus every prefix of length 0..=2 over those kinds followed by one of {} kinds that fail at their first token ({}) x 7 marker layouts (incl. content on the `--- ` line) x {{no, one}} following document, all entry points",
+        "every sequence of length 1..={max_len} over {K} document kinds ({}) x 3 separator layouts (`---` | `...`+`---`+final `...` | implicit first document + comment lines + `--- # comment`) x 5 targets (derived struct Doc, untyped Val, i64, RcAnchor struct, String) x entry points from_multiple, from_slice_multiple, read, read_with_options and the six single-document entry points (all six for length <= 3, two rotating for longer); plus every prefix of length 0..=2 over those kinds followed by one of {} kinds that fail at their first token ({}) x 7 marker layouts (incl. content on the `--- ` line) x {{no, one}} following document, all entry points; plus every sequence of length 1..={max_len} over 11 kinds (valid-block, empty, tilde, type-error-first-field, root-int and six quoted null-like/empty root scalars \"null\" '~' \"\" '' \"Null\" 'NULL') x 4 layouts",
         KINDS[..K].iter().map(|k| k.name).collect::<Vec<_>>().join(", "),
         FAIL_FIRST.len(),
-        KINDS[K..].iter().map(|k| k.name).collect::<Vec<_>>().join(", ")
+        KINDS[FAIL_FIRST].iter().map(|k| k.name).collect::<Vec<_>>().join(", ")
     );
     let fin = Finish::new(
         "a case (stream text, target) is non-trivial when the stream has >= 2 documents and its cut was confirmed by the raw parser's DocumentStart count and per-document event shapes; distinct by hash(text, target)",
